@@ -24,6 +24,7 @@ CONSTANTS
   SplitOnlyAtEnqueue = TRUE
   DropOnClose = FALSE
   WriteErrorEndsReader = FALSE
+  AckOvertakes = FALSE
   ForwardInitWin = FALSE
   WithSettings = TRUE
 INVARIANTS WithinGrant WithinMaxFrame CreditReturned NoEligibleQueued LedgerAgrees PrefixFidelity Conserved HpackInOrder
